@@ -103,7 +103,10 @@ type WObs struct {
 	Panic      string
 	CallsAfter int // destination calls made after the first failure had been reported to the caller
 	Ctor       string
-	failedSeen bool
+	// index of the operation in progress when the destination first returned an error, -1 = never
+	FailedDuringOp int
+	curOp          int
+	failedSeen     bool
 }
 
 func (o *WObs) Bytes(dest int) []byte {
@@ -123,6 +126,7 @@ type recDest struct {
 	obs    *WObs
 	idx    int
 	failAt *int // counts down over all destinations; fails when it reaches 0
+	once   bool // transient failure: only that one call fails
 	err    error
 }
 
@@ -134,6 +138,12 @@ func (d *recDest) Write(p []byte) (int, error) {
 		*d.failAt--
 		if *d.failAt == 0 {
 			*d.failAt = -1
+			if d.once {
+				*d.failAt = 0
+			}
+			if d.obs.FailedDuringOp < 0 {
+				d.obs.FailedDuringOp = d.obs.curOp
+			}
 			return 0, d.err
 		}
 	}
@@ -251,10 +261,15 @@ func newWriter(s Setting, std bool, dst io.Writer) (w anyWriter, reset func(io.W
 // RunW executes a writer history.  failAt = k > 0 makes the k-th destination call (counted
 // over the whole history) and every later one fail.
 func RunW(s Setting, std bool, datas [][]byte, ops []Op, failAt int) (obs *WObs) {
-	obs = &WObs{Dests: [][][]byte{nil}}
+	return RunWOpt(s, std, datas, ops, failAt, false)
+}
+
+// RunWOpt: once = the destination fails at call failAt only (a transient failure).
+func RunWOpt(s Setting, std bool, datas [][]byte, ops []Op, failAt int, once bool) (obs *WObs) {
+	obs = &WObs{Dests: [][][]byte{nil}, FailedDuringOp: -1}
 	fa := failAt
 	mk := func() io.Writer {
-		return &recDest{obs: obs, idx: len(obs.Dests) - 1, failAt: &fa, err: errInjected}
+		return &recDest{obs: obs, idx: len(obs.Dests) - 1, failAt: &fa, once: once, err: errInjected}
 	}
 	defer func() {
 		if r := recover(); r != nil {
@@ -267,7 +282,8 @@ func RunW(s Setting, std bool, datas [][]byte, ops []Op, failAt int) (obs *WObs)
 		return obs
 	}
 	cur := make([]int, len(datas))
-	for _, op := range ops {
+	for oi, op := range ops {
+		obs.curOp = oi
 		var r OpRes
 		switch op.K {
 		case "w":
